@@ -14,6 +14,7 @@ import TdVerif.Lemmas.C17
 
 namespace TdVerif.Props.C17
 open TdVerif TdVerif.C02 TdVerif.C17
+variable {α : Type}
 
 /-- every method usable as a context manager has a registered inverse (table regenerated from source) -/
 theorem every_ctx_op_has_inverse : ∀ op ∈ Gen.ctxOpNames, op ∈ Gen.lastOpMaps.map Prod.fst := by decide +kernel
@@ -442,6 +443,216 @@ theorem withNested_frame (n1 : String) (c1 : Call) (n2 : String) (c2 : Call) (e2
           | false =>
             simp only [hs, Bool.false_eq_true, if_false] at h
             exact exitBlock_frame n1 c1 false y2 s s' h1 h
+
+/-- `_reverse_flatten` computes `unflatten(dim0, out.shape[dim0 : dim1+1])` from every spelling that binds:
+`flatten()`, `(a)`, `(a, b)`, `(a, end_dim=b)`, `(start_dim=a)`, `(end_dim=b)`, `(start_dim=a, end_dim=b)` -/
+theorem flatten_reverse_reads_every_spelling (c : Call) (a b : Int) (y out : St)
+    (h : toOp "flatten" c = .ok (.shape (.flatten a b))) :
+    reverse "flatten" c y out = .ok ("unflatten",
+      ⟨[.int (normNeg a out.bs.length), .ints ((pySlice out.bs (normNeg a out.bs.length) (normNeg b out.bs.length)).map Int.ofNat)], []⟩) := by
+  simp only [toOp, bind, Except.bind] at h
+  split at h
+  · cases h
+  · rename_i vs hb
+    obtain ⟨x, yv, rfl, hcases⟩ := bindParams2d _ _ _ _ c vs hb
+    simp only [List.getD_cons_zero, List.getD_cons_succ] at h
+    split at h
+    · cases h
+    · rename_i i0 h0
+      split at h
+      · cases h
+      · rename_i i1 h1
+        simp only [pure, Except.pure, Except.ok.injEq, Fwd.shape.injEq, Op.flatten.injEq] at h
+        obtain ⟨rfl, rfl⟩ := h
+        have hx := asInt_ok h0
+        have hy := asInt_ok h1
+        subst hx; subst hy
+        rcases hcases with ⟨ha, _, _⟩ | ⟨ha, _, hk⟩ | ⟨ha, hk0, hk1⟩
+        · simp [reverse, ha, asInt, bind, Except.bind, pure, Except.pure]
+        · simp [reverse, ha, ← hk, asInt, bind, Except.bind, pure, Except.pure]
+        · simp [reverse, ha, ← hk0, ← hk1, asInt, bind, Except.bind, pure, Except.pure]
+
+/-- `_reverse_permute` and `permute` read the dims through the same `_get_shape_from_args`: varargs, one list, or `dims=` -/
+theorem permute_reverse_reads_every_spelling (c : Call) (dims : List Int) (y out : St)
+    (h : toOp "permute" c = .ok (.shape (.permute dims))) :
+    reverse "permute" c y out = .ok ("permute",
+      ⟨[.ints (argsort (dims.map (fun d => if d ≥ 0 then d else (y.bs.length : Int) + d)))], []⟩) := by
+  simp only [toOp, bind, Except.bind] at h
+  split at h
+  · cases h
+  · rename_i l hl
+    simp only [pure, Except.pure, Except.ok.injEq, Fwd.shape.injEq, Op.permute.injEq] at h
+    subst h
+    simp [reverse, hl, bind, Except.bind, pure, Except.pure]
+
+/-- `_reverse_squeeze` recovers the dim from `squeeze(d)` and `squeeze(dim=d)` -/
+theorem squeeze_reverse_reads_every_spelling (c : Call) (d : Int) (y out : St)
+    (h : toOp "squeeze" c = .ok (.shape (.squeeze (some d)))) :
+    reverse "squeeze" c y out = .ok ("unsqueeze", ⟨[.int d], []⟩) := by
+  simp only [toOp, bind, Except.bind] at h
+  split at h
+  · cases h
+  · rename_i vs hb
+    obtain ⟨x, rfl, hcases⟩ := bindParams1d _ _ c vs hb
+    simp only [List.getD_cons_zero] at h
+    cases x with
+    | none => simp [pure, Except.pure] at h
+    | int i =>
+      simp only [asInt, pure, Except.pure, Except.ok.injEq, Fwd.shape.injEq, Op.squeeze.injEq, Option.some.injEq] at h
+      subst h
+      rcases hcases with ⟨ha, _⟩ | ⟨ha, hk⟩
+      · simp [reverse, ha]
+      · have hkw : c.kw "dim" = some (.int i) := by
+          rcases hc : c.kw "dim" with _ | v
+          · simp [hc] at hk
+          · simp [hc] at hk; rw [hk]
+        simp [reverse, ha, hkw, kw_some_kwargs_ne c _ _ hkw]
+    | ints l => simp [asInt] at h
+    | str s => simp [asInt] at h
+    | bool b => simp [asInt] at h
+
+/-- `_reverse_unflatten` recovers dim and sizes from `(d, size)`, `(d, unflattened_size=size)`, `(dim=d, unflattened_size=size)` -/
+theorem unflatten_reverse_reads_every_spelling (c : Call) (d : Int) (sz : List Int) (y out : St)
+    (h : toOp "unflatten" c = .ok (.shape (.unflatten d sz))) :
+    reverse "unflatten" c y out = .ok (if sz.length = 1 then ("identity", ⟨[], []⟩)
+      else ("flatten", ⟨[.int (normNeg d out.bs.length), .int (normNeg d out.bs.length + sz.length - 1)], []⟩)) := by
+  simp only [toOp, bind, Except.bind] at h
+  split at h
+  · cases h
+  · rename_i vs hb
+    obtain ⟨x, yv, rfl, hcases⟩ := bindParams2 _ _ c vs hb
+    simp only [List.getD_cons_zero, List.getD_cons_succ] at h
+    split at h
+    · cases h
+    · rename_i i0 h0
+      split at h
+      · cases h
+      · rename_i l1 h1
+        simp only [pure, Except.pure, Except.ok.injEq, Fwd.shape.injEq, Op.unflatten.injEq] at h
+        obtain ⟨rfl, rfl⟩ := h
+        have hx := asInt_ok h0
+        have hy := asInts_ok h1
+        subst hx; subst hy
+        rcases hcases with ⟨ha, _, _⟩ | ⟨ha, _, hk⟩ | ⟨ha, hk0, hk1⟩
+        · simp only [reverse, ha, asInt, asInts, bind, Except.bind, pure, Except.pure]; split <;> rfl
+        · simp only [reverse, ha, hk, Option.getD_some, asInt, asInts, bind, Except.bind, pure, Except.pure]; split <;> rfl
+        · simp only [reverse, ha, hk0, hk1, Option.getD_some, asInt, asInts, bind, Except.bind, pure, Except.pure]; split <;> rfl
+
+/-! ## values: the inverse restores every element (functional tensors of C02), not only the shape -/
+
+/-- values: transposing twice gives the tensor back -/
+theorem transpose_transpose_values (t : T α) (i j : Nat) (hi : i < t.rank) (hj : j < t.rank) :
+    (t.transpose i j).transpose i j ≈ₜ t := by
+  refine ⟨?_, ?_⟩
+  · simp only [T.transpose]; exact swap_swap _ _ _ hi hj
+  · intro c hc
+    have hl : c.length = t.shape.length := by
+      have := InB.length_eq hc
+      simp only [T.transpose, swap_length] at this; exact this
+    simp only [T.transpose]
+    rw [swap_swap c i j (by rw [hl]; exact hi) (by rw [hl]; exact hj)]
+
+/-- values: squeeze(d) after unsqueeze(d) gives the tensor back -/
+theorem squeeze_unsqueeze_values (t : T α) (d : Nat) (hd : d ≤ t.rank) :
+    (t.unsqueeze d).squeeze d ≈ₜ t := by
+  have h1 : (t.unsqueeze d).shape.getD d 0 = 1 := by
+    simp [T.unsqueeze, List.getD_eq_getElem?_getD, List.getElem?_insertIdx_self, show d ≤ t.shape.length from hd]
+  have hsq : (t.unsqueeze d).squeeze d = (t.unsqueeze d).select d 0 := by unfold T.squeeze; rw [if_pos h1]
+  rw [hsq]
+  refine ⟨?_, ?_⟩
+  · simp only [T.select, T.unsqueeze]; exact List.eraseIdx_insertIdx_self 1
+  · intro c _
+    simp only [T.select, T.unsqueeze]
+    rw [List.eraseIdx_insertIdx_self]
+
+/-- values: `(t.permute p).permute (argsort p)` gives the tensor back (argsort p = invPerm p) -/
+theorem permute_invPerm_values (t : T α) (p : List Nat) (hp : p.Perm (List.range t.rank)) :
+    (t.permute p).permute (invPerm p) ≈ₜ t := by
+  have hlen : p.length = t.shape.length := by simpa [T.rank] using hp.length_eq
+  have hq := invPerm_perm p _ hp
+  have hqlen : (invPerm p).length = t.shape.length := by simp [invPerm, hlen]
+  refine ⟨?_, ?_⟩
+  · simp only [T.permute]
+    rw [invPerm_undoes p _ hp (fun i => t.shape.getD i 0) 0]
+    exact range_map_getD' t.shape
+  · intro c hc
+    have hcl : c.length = t.shape.length := by
+      have := InB.length_eq hc
+      simp only [T.permute, List.length_map] at this
+      rw [this, hqlen]
+    simp only [T.permute]
+    congr 1
+    -- permSrc p (permSrc (invPerm p) c) = c
+    unfold permSrc
+    rw [hlen, hqlen]
+    apply List.ext_getElem?; intro j
+    by_cases hj : j < t.shape.length
+    · have hjp : j ∈ p := (perm_range_mem hp j).2 hj
+      have hidx : p.idxOf j < p.length := List.idxOf_lt_length_of_mem hjp
+      -- q[j] = p.idxOf j, hence q.idxOf (p.idxOf j) = j (q has no duplicates)
+      have hqj : (invPerm p)[j]'(by rw [hqlen]; exact hj) = p.idxOf j := by simp [invPerm]
+      have hqnd : (invPerm p).Nodup := hq.nodup_iff.2 List.nodup_range
+      have hback : (invPerm p).idxOf (p.idxOf j) = j := by
+        rw [← hqj]; exact hqnd.idxOf_getElem j _
+      have hlt2 : p.idxOf j < t.shape.length := by rw [← hlen]; exact hidx
+      simp only [List.getElem?_map, List.getElem?_range hj, Option.map_some, List.getD_eq_getElem?_getD,
+        List.getElem?_range hlt2, hback]
+      rw [List.getElem?_eq_getElem (by rw [hcl]; exact hj)]; rfl
+    · have h1 : c[j]? = none := by rw [List.getElem?_eq_none_iff]; omega
+      simp only [List.getElem?_map, h1]
+      have : (List.range t.shape.length)[j]? = none := by rw [List.getElem?_eq_none_iff]; simp; omega
+      simp [this]
+
+/-- values: viewing back onto the original shape gives the tensor back -/
+theorem reshape_reshape_values (t : T α) (s : Shape) (hprod : prod s = prod t.shape) :
+    (t.reshape s).reshape t.shape ≈ₜ t := by
+  refine ⟨rfl, ?_⟩
+  intro c hc
+  have hc' : InB c t.shape := hc
+  simp only [T.reshape]
+  have hlt : ravel c t.shape < prod s := by rw [hprod]; exact ravel_lt hc'
+  rw [ravel_unravel s _ hlt, unravel_ravel hc']
+
+/-- values: `unflatten(a, shape[a : b+1])` after `flatten(a, b)` gives the tensor back -/
+theorem unflatten_flatten_values (t : T α) (a b : Nat) (hab : a ≤ b) (hb : b < t.rank) :
+    (t.flatten a b).unflatten a ((t.shape.drop a).take (b + 1 - a)) ≈ₜ t := by
+  unfold T.rank at hb
+  have hk : ((t.shape.drop a).take (b + 1 - a)).length = b + 1 - a := by simp; omega
+  have hshape : (t.shape.take a ++ [prod ((t.shape.drop a).take (b + 1 - a))] ++ t.shape.drop (b + 1)).take a
+      ++ (t.shape.drop a).take (b + 1 - a)
+      ++ (t.shape.take a ++ [prod ((t.shape.drop a).take (b + 1 - a))] ++ t.shape.drop (b + 1)).drop (a + 1) = t.shape := by
+    have hta : (t.shape.take a).length = a := by simp; omega
+    have e1 : (t.shape.take a ++ [prod ((t.shape.drop a).take (b + 1 - a))] ++ t.shape.drop (b + 1)).take a = t.shape.take a := by
+      rw [List.append_assoc]; exact List.take_left' hta
+    have e2 : (t.shape.take a ++ [prod ((t.shape.drop a).take (b + 1 - a))] ++ t.shape.drop (b + 1)).drop (a + 1) = t.shape.drop (b + 1) :=
+      List.drop_left' (by simp [hta])
+    rw [e1, e2]
+    apply List.ext_getElem?; intro k
+    simp only [List.getElem?_append, List.getElem?_take, List.getElem?_drop, List.length_append, List.length_take, List.length_drop]
+    grind
+  refine ⟨?_, ?_⟩
+  · simp only [T.unflatten, T.flatten]; exact hshape
+  · intro c hc
+    have hc' : InB c t.shape := by
+      simp only [T.unflatten, T.flatten] at hc; rw [hshape] at hc; exact hc
+    have hcl : c.length = t.shape.length := InB.length_eq hc'
+    simp only [T.unflatten, T.flatten, hk]
+    congr 1
+    -- the coordinate goes through ravel then unravel of the flattened block
+    have hta : (c.take a).length = a := by simp; omega
+    have h1 : (c.take a ++ [ravel ((c.drop a).take (b + 1 - a)) ((t.shape.drop a).take (b + 1 - a))] ++ c.drop (a + (b + 1 - a))).take a = c.take a := by
+      rw [List.append_assoc]; exact List.take_left' hta
+    have h2 : (c.take a ++ [ravel ((c.drop a).take (b + 1 - a)) ((t.shape.drop a).take (b + 1 - a))] ++ c.drop (a + (b + 1 - a))).getD a 0
+        = ravel ((c.drop a).take (b + 1 - a)) ((t.shape.drop a).take (b + 1 - a)) := by
+      simp [List.getD_eq_getElem?_getD, List.getElem?_append, hta]
+    have h3 : (c.take a ++ [ravel ((c.drop a).take (b + 1 - a)) ((t.shape.drop a).take (b + 1 - a))] ++ c.drop (a + (b + 1 - a))).drop (a + 1) = c.drop (b + 1) := by
+      have : a + (b + 1 - a) = b + 1 := by omega
+      rw [this]
+      exact List.drop_left' (by simp [hta])
+    rw [h1, h2, h3, unravel_ravel (InB_drop_take a (b + 1 - a) hc')]
+    apply List.ext_getElem?; intro k
+    simp only [List.getElem?_append, List.getElem?_take, List.getElem?_drop, List.length_append, List.length_take, List.length_drop]
+    grind
 
 /-! ## non-vacuity -/
 
